@@ -21,6 +21,7 @@ func init() {
 			ruleTransportStreamDelegates(c, "C02.13")
 			ruleCloseSendAfterFinish(c, "C02.14")
 			ruleHeadersSettledByFirstData(c, "C02.15")
+			ruleSetHeaderOnlyRecords(c, "C02.16")
 		},
 		Explain:    "Static necessary conditions of exact status/metadata delivery: value flow of the handler's error into close_stream and of the received status/trailers into the client's terminal marker (with the nil/context-error mapping table); first-writer-wins marker with all publication dominated by the CAS success edge; publish-before-wake ordering in the client finishing function; header publication before its signal and once-guarded; headers no later than the first message; Join accumulation and whole-map/whole-slice converters; request metadata = outgoing metadata + every credentials pair, installed unconditionally on the server; no possibly-nil map written; metadata values reaching a proto3 string without validation (known finding F-4). All paths; no bound on inputs or schedules.",
 		Assume:     []string{"status.FromError/FromProto/Proto/Err and metadata.Join/Copy behave as documented", "protobuf round trip preserves status details and metadata"},
